@@ -25,16 +25,8 @@ fn any_sq() -> usize { let i: usize = kani::any(); kani::assume(i < 64); i }
 fn show(pre: &Pre, w: u16) { println!("REPLAY-CASE {{\"fen\":\"{}\",\"clock\":{},\"plies\":{},\"move\":\"{}\"}}", pos::fen_of(&pre.p), pre.clock, pre.plies, pos::move_text(w)); }
 
 /// make_move produces the position the rules prescribe; undo_move restores everything
-#[kani::proof]
-#[kani::stub(crate::chess::zobrist::ZobristHash::toggle_piece_on_square, nop_toggle_piece)]
-#[kani::stub(crate::chess::zobrist::ZobristHash::toggle_castle_rights, nop_toggle_castle)]
-#[kani::stub(crate::chess::zobrist::ZobristHash::set_en_passant, nop_set_ep)]
-#[kani::stub(crate::chess::zobrist::ZobristHash::toggle_side_to_play, nop_toggle_side)]
-#[kani::stub(crate::engine::eval::IncrementalEvalFields::set_at, nop_eval_set)]
-#[kani::stub(crate::engine::eval::IncrementalEvalFields::remove_at, nop_eval_remove)]
-pub fn c02_make_undo() {
-    let (pre, mut g) = step::any_pre();
-    let (w, m) = step::any_legal(&pre.p);
+pub fn make_undo(kind: usize, side: u8) {
+    let (pre, mut g, w, m) = step::any_case(kind, side);
     let sq = any_sq();
     #[cfg(test)] show(&pre, w);
     let z0 = g.zobrist.clone();
@@ -47,6 +39,7 @@ pub fn c02_make_undo() {
     assert!(pos::bpos_of_bitboards(&g).rights == want.rights);
     assert!(pos::bpos_of_bitboards(&g).ep == want.ep);
     assert!(step::game_is(&g, &want, step::expected_clock(&pre, &m), pre.plies + 1, pre.hist_len + 1, sq));
+    kani::cover!(true); // reachability witness: some legal move of this kind exists and was made
     kani::cover!(m.ep);
     kani::cover!(m.castle);
     kani::cover!(m.capture && pos::raw_promo(w) != 0);
@@ -83,16 +76,8 @@ pub fn c02_null_undo() {
 }
 
 /// stack discipline: make; null; take back null; take back  (the nesting a search performs)
-#[kani::proof]
-#[kani::stub(crate::chess::zobrist::ZobristHash::toggle_piece_on_square, nop_toggle_piece)]
-#[kani::stub(crate::chess::zobrist::ZobristHash::toggle_castle_rights, nop_toggle_castle)]
-#[kani::stub(crate::chess::zobrist::ZobristHash::set_en_passant, nop_set_ep)]
-#[kani::stub(crate::chess::zobrist::ZobristHash::toggle_side_to_play, nop_toggle_side)]
-#[kani::stub(crate::engine::eval::IncrementalEvalFields::set_at, nop_eval_set)]
-#[kani::stub(crate::engine::eval::IncrementalEvalFields::remove_at, nop_eval_remove)]
-pub fn c02_nested_make_null() {
-    let (pre, mut g) = step::any_pre();
-    let (w, m) = step::any_legal(&pre.p);
+pub fn nested_make_null(kind: usize, side: u8) {
+    let (pre, mut g, w, m) = step::any_case(kind, side);
     let sq = any_sq();
     #[cfg(test)] show(&pre, w);
     g.make_move(move_of(w));
@@ -103,20 +88,15 @@ pub fn c02_nested_make_null() {
     assert!(step::game_is(&g, &mid, c1, pre.plies + 1, pre.hist_len + 1, sq));
     g.undo_move();
     assert!(step::game_is(&g, &pre.p, pre.clock, pre.plies, pre.hist_len, sq));
+    kani::cover!(true);
     kani::cover!(mid.ep < 64);
     std::mem::forget(g);
 }
 
 /// stack discipline: null; make; take back; take back null
-#[kani::proof]
-#[kani::stub(crate::chess::zobrist::ZobristHash::toggle_piece_on_square, nop_toggle_piece)]
-#[kani::stub(crate::chess::zobrist::ZobristHash::toggle_castle_rights, nop_toggle_castle)]
-#[kani::stub(crate::chess::zobrist::ZobristHash::set_en_passant, nop_set_ep)]
-#[kani::stub(crate::chess::zobrist::ZobristHash::toggle_side_to_play, nop_toggle_side)]
-#[kani::stub(crate::engine::eval::IncrementalEvalFields::set_at, nop_eval_set)]
-#[kani::stub(crate::engine::eval::IncrementalEvalFields::remove_at, nop_eval_remove)]
-pub fn c02_nested_null_make() {
+pub fn nested_null_make(kind: usize, side: u8) {
     let (pre, mut g) = step::any_pre();
+    if side < 2 { kani::assume(pre.p.white_to_move == (side == 0)); }
     let sq = any_sq();
     g.make_null_move();
     let mut flipped = pre.p;
@@ -125,6 +105,7 @@ pub fn c02_nested_null_make() {
     // after a null move the opponent must not be capturable... i.e. the position must still be valid:
     kani::assume(pos::valid(&flipped));
     let (w, m) = step::any_legal(&flipped);
+    if kind < 6 { kani::assume(m.kind == kind); }
     #[cfg(test)] show(&pre, w);
     g.make_move(move_of(w));
     let want = step::expected_after(&flipped, w, &m);
@@ -133,6 +114,7 @@ pub fn c02_nested_null_make() {
     assert!(step::game_is(&g, &flipped, pre.clock, pre.plies + 1, pre.hist_len + 1, sq));
     g.undo_null_move();
     assert!(step::game_is(&g, &pre.p, pre.clock, pre.plies, pre.hist_len, sq));
+    kani::cover!(true);
     kani::cover!(m.capture);
     std::mem::forget(g);
 }
